@@ -18,7 +18,9 @@ Directive grammar (one per line, inside an //@extract block, section bodies are 
 
   //@extract <kind> <name> from <relpath> [impl=<Type>] [ret=<ident>] [tags=C05,C14] [attrs=keep]
         kind: fn | const | static | struct | enum | type
-  //@rewrite "literal-from" => "literal-to"      (must match at least once, else lost anchor)
+  //@rewrite "literal-from" => "literal-to"      (must match at least once, else lost anchor; a `$name` in the
+                                                  literal stands for one identifier and may be used in literal-to,
+                                                  and whitespace runs then match any whitespace)
   //@rewrite? "literal-from" => "literal-to"     (optional: no match = no change)
   //@sig "literal-from" => "literal-to"          (rewrite restricted to the signature)
   //@spec                                         (body: requires/ensures/decreases; placed before the fn body)
@@ -552,6 +554,27 @@ def process_block(blk, report, twin=None, defined=None):
             if cnt == 0:
                 raise LostAnchor('sig rewrite "%s" did not match in %s' % (frm, blk.name))
             text = text[:bo].replace(frm, to) + text[bo:]
+        elif re.search(r"\$[A-Za-z_]\w*", frm):
+            # wildcard form: `$name` stands for one identifier (same name = same identifier; usable in the replacement),
+            # any run of whitespace matches any run of whitespace - so that renamed locals / re-wrapped lines keep matching
+            seen, pat, pos = set(), "", 0
+            for mm in re.finditer(r"\$([A-Za-z_]\w*)|\s+", frm):
+                pat += re.escape(frm[pos:mm.start()])
+                if mm.group(1) is None:
+                    pat += r"\s+"
+                elif mm.group(1) in seen:
+                    pat += "(?P=%s)" % mm.group(1)
+                else:
+                    seen.add(mm.group(1))
+                    pat += r"(?P<%s>[A-Za-z_]\w*)" % mm.group(1)
+                pos = mm.end()
+            pat += re.escape(frm[pos:])
+
+            def _sub(mo, to=to):
+                return re.sub(r"\$([A-Za-z_]\w*)", lambda g: mo.group(g.group(1)) if g.group(1) in mo.groupdict() else g.group(0), to)
+            text, cnt = re.subn(pat, _sub, text)
+            if cnt == 0 and kind == "rewrite":
+                raise LostAnchor('rewrite "%s" did not match in %s %s' % (frm, blk.kind, blk.name))
         else:
             cnt = text.count(frm)
             if cnt == 0 and kind == "rewrite":
@@ -676,7 +699,12 @@ def add_lemma_probes(text, only=None):
     for m in re.finditer(r"\bproof\s+fn\s+(\w+)", mask):
         if only is not None and m.group(1) != only:
             continue
-        # find body '{' at paren depth 0 -- skip if external_body / axiom (body never checked)
+        # an axiom (`#[verifier::external_body] proof fn`) has no checked body: nothing to probe; it is listed as an
+        # assumption by scan_assumptions instead
+        head = text[max(0, m.start() - 120):m.start()]
+        if re.search(r"#\[verifier::external_body\]\s*(pub\s+)?$", head):
+            continue
+        # find body '{' at paren depth 0
         k, pd = m.end(), 0
         while k < len(mask):
             ch = mask[k]
